@@ -9,6 +9,7 @@ Section TyInd.
   Hypothesis HS : forall t, P t -> P (TStream t).
   Hypothesis HR : forall fs, Forall (fun nf => P (snd nf)) fs -> P (TStruct fs).
   Hypothesis HT : forall ts, Forall P ts -> P (TTuple ts).
+  Hypothesis HI : forall t, P t -> P (TInterval t).
   Fixpoint ty_ind' (t : ty) : P t :=
     match t with
     | TI32 => H1 | TI64 => H2 | TF32 => H3 | TF64 => H4 | TBool => H5 | TStr => H6
@@ -18,12 +19,13 @@ Section TyInd.
                               match l with [] => Forall_nil _ | nf :: r => Forall_cons nf (ty_ind' (snd nf)) (go r) end) fs)
     | TTuple ts => HT ts ((fix go (l : list ty) : Forall P l :=
                              match l with [] => Forall_nil _ | x :: r => Forall_cons x (ty_ind' x) (go r) end) ts)
+    | TInterval x => HI x (ty_ind' x)
     end.
 End TyInd.
 
 Lemma ty_eqb_eq : forall a b, ty_eqb a b = true <-> a = b.
 Proof.
-  induction a as [| | | | | |a IH|a IH|fs IH|ts IH] using ty_ind'; intro b; destruct b; cbn [ty_eqb];
+  induction a as [| | | | | |a IH|a IH|fs IH|ts IH|a IH] using ty_ind'; intro b; destruct b; cbn [ty_eqb];
     try (split; [discriminate | intro E; discriminate E]); try (split; reflexivity).
   - rewrite IH; split; congruence.
   - rewrite IH; split; congruence.
@@ -43,6 +45,7 @@ Proof.
       rewrite !andb_true_iff, Hx, IHf. split.
       * intros [E1 E2]; congruence.
       * intro E; inversion E; subst; auto.
+  - rewrite IH; split; congruence.
 Qed.
 Lemma ty_eqb_refl a : ty_eqb a a = true.
 Proof. apply ty_eqb_eq; reflexivity. Qed.
